@@ -22,6 +22,9 @@ fn main() {
         usage();
     }
     match args[0].as_str() {
+        "child" => {
+            props::c20::child_main();
+        }
         "list" => {
             for id in props::all_ids() {
                 println!("{}", id);
@@ -54,7 +57,7 @@ fn main() {
                 std::process::exit(2)
             });
             engine::start_watchdog(tier.pick(1500, 6 * 3600));
-            std::process::exit(engine::run_property(&p, tier, seed));
+            std::process::exit(engine::run_property(std::sync::Arc::new(p), tier, seed));
         }
         "replay" => {
             let id = args.get(1).unwrap_or_else(|| usage());
